@@ -16,7 +16,8 @@ import vlib
 from props import ren_common as rc
 
 GROUP = 'ren'
-TRUSTED = ['the recorded answers of rset_find (dir.c marks) are replayed to the model as its matcher oracle; the regex engine itself is outside C17',
+TRUSTED = ['tools/c2clite.py + clang -ast-dump=json (syntax printer of find/uc_isdw/uc_iszw/uc_wid/uc_isbell/uc_acomb and of the range tables) and the C semantics fixed in coq/CLite.v',
+           'the recorded answers of rset_find (dir.c marks) are replayed to the model as its matcher oracle; the regex engine itself is outside C17',
            'tools/props/ren_common.py parses the generated Coq tables for the Python oracle']
 
 NL = 10
